@@ -227,6 +227,9 @@ def rand_pol_next(rng):
          "minwait": rng.choice([[], [], [30], [600]])}
     if rng.random() < 0.25:
         a["mwms"] = [rng.choice([0, 1, 500, 999, 1500, 60001])]   # sub-second and odd minimum waits
+    if rng.random() < 0.3:
+        # an absolute deadline ("every day at 03:00"): consecutive iterations get the identical timing
+        a["abs"] = [rng.choice([5000, 5000, 90000])]
     return a
 
 
